@@ -238,17 +238,28 @@ func (P *Prog) validatorEntryPaths(val *ssa.Function) ([]*entryPath, *loopInfo) 
 			}
 		}
 		nLabelConds := 0
+		dead := false
 		for _, c := range p.conds {
 			if c.Pred.Op != "binop" || c.Pred.S != "==" {
 				continue
 			}
 			for i := 0; i < 2; i++ {
 				o := c.Pred.Args[1-i]
+				wrongType := false
 				if o.Op == "iface" {
+					// the normalised label is an int64 (or a string): a constant of
+					// any other Go type never compares equal to it as an interface
+					wrongType = o.S != "int64"
 					o = o.Args[0]
 				}
 				n, ok := termConstInt(o)
 				if !ok || !strings.Contains(c.Pred.Args[i].String(), "call<"+shortFn(norm)+">") {
+					continue
+				}
+				if wrongType {
+					if c.Val {
+						dead = true // this arm can never be taken
+					}
 					continue
 				}
 				nLabelConds++
@@ -256,6 +267,9 @@ func (P *Prog) validatorEntryPaths(val *ssa.Function) ([]*entryPath, *loopInfo) 
 					ep.label, ep.known = n, true
 				}
 			}
+		}
+		if dead {
+			continue
 		}
 		if !ep.known && nLabelConds > 0 {
 			ep.other = true
